@@ -1,8 +1,11 @@
 (* C06 — credentials are never forwarded to a different origin on redirect.  Statements only. *)
 From Coq Require Import String List NArith ZArith QArith Bool.
-From V Require Import lib.PyStr model.Retry model.Redirect gen.Gen_Retry gen.Gen_Pm proofs.Redirect_proofs corr.Run_C04.
+From V Require Import lib.PyStr model.Retry model.Redirect gen.Gen_Retry gen.Gen_Pm gen.Gen_Urlopen gen.Gen_Resp gen.Gen_Coll proofs.Redirect_proofs corr.Run_C04 corr.Run_C05.
 Import ListNotations.
 Local Open Scope Z_scope.
+
+Definition o_target_of (script : list hop) : origin :=
+  match script with Hop _ (Some t) :: _ => t_origin t | _ => mkO [] [] None end.
 
 (* the default removal set covers the three credential headers (lower-cased as Retry.__init__ stores them) *)
 Theorem default_rm_covers :
@@ -28,6 +31,24 @@ Theorem credentials_never_cross_origin : forall L ce re rs ch fb mkd h rest cur 
   (forall k v, In (k, v) (q_headers (l_req e)) -> mem_str (ascii_lower k) (r_remove_headers r) = false).
 Proof. exact credentials_stripped_after_cross_origin. Qed.
 Print Assumptions credentials_never_cross_origin.
+
+(* the hypothesis above is the pool's view: through a forwarding proxy the pool in hand is the proxy's (vp = Some proxy), and
+   the statement with the origin of the request in its place is false - a redirect to the proxy's own address is "same host",
+   and the request sent there still carries Authorization (known finding C06-F1) *)
+Theorem credentials_cross_origin_via_proxy_refuted : exists script cur rq proxy e,
+  is_same_host (pool_of (t_origin cur)) (o_target_of script) = false /\
+  In e (fst (manager_loop LAT (getl Gen_Urlopen.retry_connection_error) (getl Gen_Urlopen.retry_read_error)
+               (getl Gen_Resp.redirect_statuses) (getl Gen_Coll.content_specific_headers) 2 mkdefault
+               script true cur rq RNone RNone (Some proxy) [])) /\
+  l_origin e = proxy /\ In (S!"Authorization", S!"s1") (q_headers (l_req e)).
+Proof.
+  exists [Hop 302 (Some (mkT (mkO (S!"http") (S!"proxy.example") (Some 3128)) (S!"/final"))); Hop 200 None],
+         (mkT (mkO (S!"http") (S!"a.example") None) (S!"/start")),
+         (mkRq (S!"GET") false [(S!"Authorization", S!"s1")]),
+         (mkO (S!"http") (S!"proxy.example") (Some 3128)).
+  eexists. split; [vm_compute; reflexivity|]. split; [vm_compute; right; left; reflexivity|]. split; vm_compute; [reflexivity|left; reflexivity].
+Qed.
+Print Assumptions credentials_cross_origin_via_proxy_refuted.
 
 (* all other headers are preserved on the next request (apart from the content headers a 303 drops) *)
 Theorem other_headers_preserved : forall ch status rq rm k v,
